@@ -79,6 +79,18 @@ type verifC18 struct {
 
 func (w *verifC18) now() time.Time { return time.Now().UTC() }
 
+// stop: a run ends at its first violation, except for the re-framed
+// signature shape (finding F4), which the model follows exactly (the stored
+// content is authentic), so that the rest of the run stays meaningful.
+func (w *verifC18) stop() bool {
+	for _, v := range w.c.Violations {
+		if v.Class != verifF4Class {
+			return true
+		}
+	}
+	return false
+}
+
 func (w *verifC18) fault(kind string) {
 	w.c.Count("fault:" + kind)
 	w.fired++
@@ -223,7 +235,7 @@ func verifRunC18(c *verifsim.Ctx) {
 	}
 
 	nops := c.Range("nops", 4, 28)
-	for i := 0; i < nops && len(c.Violations) == 0; i++ {
+	for i := 0; i < nops && !w.stop(); i++ {
 		switch c.Draw("op", 10) {
 		case 0, 1, 2, 3, 4:
 			e := w.genAssertion()
@@ -250,7 +262,7 @@ func verifRunC18(c *verifsim.Ctx) {
 			w.deliver(e, "again")
 		}
 	}
-	if len(c.Violations) == 0 {
+	if !w.stop() {
 		w.findStored()
 	}
 	c.SimTime = time.Since(verifT0)
